@@ -6,8 +6,8 @@
    [encode_index], and [parse_layout], an independent reader of the caibx layout at fixed offsets).
    [d] is desync.Digest.Algorithm(); a file is a list of bytes. *)
 From Coq Require Import List NArith Arith Bool.
-From DS Require Import Gen.Constants Base.Bytes Base.LE64 Model.Format Model.Index Model.IndexStore Model.IndexSink
-     Proofs.IndexStoreProofs Proofs.IndexSinkProofs Proofs.FormatProofs Proofs.IndexProofs Proofs.PrefixProofs Proofs.ReencodeProofs Proofs.LayoutProofs
+From DS Require Import Gen.Constants Base.Bytes Base.LE64 Model.Format Model.Index Model.IndexStore Model.IndexSink Model.IndexRetry
+     Proofs.IndexStoreProofs Proofs.IndexSinkProofs Proofs.IndexRetryProofs Proofs.FormatProofs Proofs.IndexProofs Proofs.PrefixProofs Proofs.ReencodeProofs Proofs.LayoutProofs
      Proofs.C04Final.
 Import ListNotations.
 Local Open Scope N_scope.
@@ -164,6 +164,17 @@ Theorem C04_write_to_prefix : forall (v : flush_variant) (i : index) (s : wsink)
 Proof. exact write_to_prefix. Qed.
 Print Assumptions C04_write_to_prefix.
 
+(* Retries.  RemoteHTTPIndex.StoreIndex through IssueRetryableHttpRequest, for every script of failing
+   attempts (5xx / transport errors), every retry budget and every backend: it returns nil exactly when
+   an attempt within the budget (max(1, ErrorRetry) attempts) reaches a backend that accepts the index,
+   and then the backend holds exactly Index.WriteTo's bytes. *)
+Theorem C04_remote_store_index_spec : forall accepts error_retry script (i : index),
+  remote_store_index FreshReader accepts error_retry script i =
+    if (leading_failures script <? attempts_of error_retry)%nat && accepts (encode_index i)
+    then Some (encode_index i) else None.
+Proof. exact remote_store_index_spec. Qed.
+Print Assumptions C04_remote_store_index_spec.
+
 (* ---- non-vacuity ---- *)
 Definition ex_index : index :=
   mkIndex CaFormatSHA512256 16 64 256 [(ex_id 7, 0, 100); (ex_id 8, 100, 0); (ex_id 9, 100, 256)].
@@ -214,4 +225,17 @@ Example C04_deferred_flush_refuted :
   snd (write_to FlushChecked ex_index (mkWSink 0 [])) = false /\
   snd (write_to FlushChecked ex_index (mkWSink 223 [])) = false /\
   write_to FlushChecked ex_index (mkWSink 224 []) = (mkWSink 0 (encode_index ex_index), 224, true).
+Proof. vm_compute. repeat split; reflexivity. Qed.
+
+(* one reader shared by all attempts instead of a fresh one per attempt: after a failed first attempt the
+   retry uploads an empty body; a plain object server stores it and StoreIndex reports success, desync's
+   own index server (accepting what IndexFromReader accepts) refuses it although it was healthy *)
+Example C04_shared_reader_refuted :
+  remote_store_index SharedReader (fun _ => true) 3 [AFail] ex_index = Some [] /\
+  remote_store_index SharedReader (fun b => match decode_index SHA512_256 b with Ok _ => true | _ => false end)
+                     3 [AFail] ex_index = None /\
+  remote_store_index FreshReader (fun _ => true) 3 [AFail; AFail] ex_index = Some (encode_index ex_index) /\
+  remote_store_index FreshReader (fun _ => true) 3 [AFail; AFail; AFail] ex_index = None /\
+  remote_store_index FreshReader (fun b => match decode_index SHA512_256 b with Ok _ => true | _ => false end)
+                     3 [AFail] ex_index = Some (encode_index ex_index).
 Proof. vm_compute. repeat split; reflexivity. Qed.
